@@ -42,8 +42,8 @@ DERIVED = ['mu', 'logg', 'avg_T']
 def _case(draw):
     sampler = draw(st.sampled_from(['nestle', 'multinest-single', 'nestle', 'multinest-multi']))
     family = draw(st.sampled_from(['transmission', 'emission', 'transmission']))
-    k = draw(st.integers(1, 4))
-    fitted = draw(st.permutations(['planet_radius', 'T', 'mol0', 'fill', 'clouds_pressure']))[:k]
+    k = draw(S.ints(1, 4))
+    fitted = draw(S.perm(['planet_radius', 'T', 'mol0', 'fill', 'clouds_pressure']))[:k]
     pri = {p: {'kind': draw(st.sampled_from(['Uniform', 'LogUniform', 'Gaussian', 'LogGaussian'])),
                'a': draw(st.floats(0.3, 0.9)), 'b': draw(st.floats(1.1, 2.0)), 'std': draw(st.floats(0.01, 0.05))}
            for p in fitted}
@@ -64,7 +64,7 @@ def _case(draw):
         w['gases'][0]['logtop'] = None
     return {'tiny': tiny, 'world': w, 'sampler': sampler, 'family': family, 'fitted': list(fitted), 'priors': pri,
             'obs': draw(c06.observation_spec()), 'ns': ns, 'wkind': wkind, 'u': u, 'wr': wr, 'derived': derived,
-            'ngauss': draw(st.integers(1, 2)), 'split': draw(st.floats(0.2, 0.8)),
+            'ngauss': 1 + draw(S.ints(0, 1)), 'split': draw(st.floats(0.2, 0.8)),
             'size': draw(st.sampled_from(['heavy', 'light', 'lighter'])), 'refit': draw(st.sampled_from([True, False, False]))}
 
 
